@@ -65,7 +65,14 @@ def items(tier, seed):
                     out.append({"cls": cls, "base": list(base), "pat": list(pat), "lo": lo, "hi": min(nperm, lo + step)})
         out.append({"cls": cls, "base": list(_bases(cls, seed, tier)[0]), "partition": True,
                     "centre_fixed": tier == "quick"})
-    out.sort(key=lambda it: (R.NPOS[it["cls"]], len(it.get("pat", ())), it.get("lo", 0)))
+    # classes of equal length used one after the other on the SAME atom tuples inside one process (shared caches,
+    # class-level state): every ordered pair of such classes
+    for c1 in R.CLASSES:
+        for c2 in R.CLASSES:
+            if c1 != c2 and R.NPOS[c1] == R.NPOS[c2]:
+                out.append({"cls": c2, "after": c1, "base": list(_bases(c2, seed, tier)[0]), "pat": [], "lo": 0,
+                            "hi": 720, "sequence": True})
+    out.sort(key=lambda it: (bool(it.get("sequence")), R.NPOS[it["cls"]], len(it.get("pat", ())), it.get("lo", 0)))
     return out
 
 
@@ -86,6 +93,22 @@ def _eq(a, b):
 def run_item(item):
     if item.get("partition"):
         return _partition(item)
+    if item.get("sequence"):
+        # first exercise the other class over the same tuples (result checked too), then this class
+        first = dict(item, cls=item["after"], sequence=False)
+        first.pop("after")
+        r1 = run_item(first)
+        second = dict(item, sequence=False)
+        second.pop("after")
+        r2 = run_item(second)
+        for v in r1["viol"] + r2["viol"]:
+            v["sig"] = v["sig"].replace("C04/", "C04/seq:", 1)
+            v["item"] = item
+        r2["viol"] = r1["viol"] + r2["viol"]
+        r2["evals"] += r1["evals"]
+        r2["distinct"] += r1["distinct"]
+        r2["samples"] = []
+        return r2
     cls = item["cls"]
     base = list(item["base"])
     pat = tuple(item["pat"])
